@@ -52,6 +52,14 @@ CHECKS = {
         "Socket behaviour is simulated (script + capacity model), not a kernel; blocking SSLStreamTransport and the asyncio adapter are covered by other layers/checks when present.",
         "DESIGN.md section 3 C04",
     ),
+    "C11": (
+        "exploration",
+        "property-based schedule generation with an exact reference model: arrival/drain timelines under a fake selector and virtual perf_counter; outcome and virtual end time compared with the model",
+        "Blocking recv_packet / send_packet / iter_received_packets (stream endpoints with both receive paths, TCP and UDP clients, datagram endpoint) run single-threaded against generated arrival timelines, spurious wake-ups and retry intervals; "
+        "the call must succeed exactly when its last byte arrives before the deadline and otherwise raise TimeoutError after exactly T of waiting; T=0 never enters select().",
+        "Virtual time: only select() waits take time; TLS blocking transport and real-thread lock contention are outside these layers.",
+        "DESIGN.md section 3 C11",
+    ),
 }
 
 PENDING = {}
